@@ -9,7 +9,7 @@
    (coap_new_message_id).  No hypothesis on the peer is needed for the repaired code: the
    theorems hold for ACKs / RSTs of arbitrary ids, which includes the property's peer. *)
 From LibcoapV Require Import Base.Tactics Nstart.Nstart Nstart.NstartProofs Nstart.NstartFail
-  Nstart.NstartFailProofs.
+  Nstart.NstartFailProofs Nstart.NstartCtx Nstart.NstartCtxProofs.
 Local Open Scope Z_scope.
 
 (* Bound, for every reachable state and on the observable history.  con_active is exactly the
@@ -105,6 +105,44 @@ Theorem C08_example :
   ns_nack_count 8 (flat_map snd (ns_trace ns_cfg_ex (ns_init false) ns_evs_ex)) = 1%nat.
 Proof. exact ns_example. Qed.
 Print Assumptions C08_example.
+
+(* Several sessions per context (NstartCtx.v): the send queue belongs to the context, entries are
+   found by (session, id), (session, token) or session.  For every interleaving of the events of
+   any number of sessions: the history and the state of each session (its data + its view of the
+   shared queue) are exactly those of the single-session machine run on that session's own
+   events - so every theorem above holds for every session, whatever the others do. *)
+Theorem C08_sessions_independent : forall cf evs x sid,
+  nsc_proj (nsc_run cf x evs) sid = ns_run (cf sid) (nsc_proj x sid) (nsc_evs_of sid evs) /\
+  nsc_trace_of sid (nsc_trace cf x evs) = ns_trace (cf sid) (nsc_proj x sid) (nsc_evs_of sid evs).
+Proof. exact nsc_run_proj. Qed.
+Print Assumptions C08_sessions_independent.
+
+(* spelled out for the bound: the number of a session's CON nodes in the shared queue equals its
+   con_active and never exceeds its NSTART, and the checker accepts the session's history *)
+Theorem C08_bound_shared_queue : forall cf est0 evs sid, ns_wf (cf sid) ->
+  NoDup (ns_sub_mids (nsc_evs_of sid evs)) ->
+  let x := nsc_run cf (nsc_init est0) evs in
+  let mine := nsc_view sid (nsc_q x) in
+  ns_act (nsc_ss x sid) = Z.of_nat (length mine) /\
+  forallb ns_ncon mine = true /\
+  Z.of_nat (length mine) <= ns_nstart (cf sid) /\
+  ns_accepts (cf sid) (est0 sid) (nsc_trace_of sid (nsc_trace cf (nsc_init est0) evs)) = true.
+Proof. exact nsc_bound. Qed.
+Print Assumptions C08_bound_shared_queue.
+
+(* two sessions using the same message ids, interleaved on one queue *)
+Theorem C08_shared_queue_example :
+  let x := nsc_run nsc_cf_ex (nsc_init (fun _ => true)) nsc_evs_ex in
+  map (fun n => (nsc_sid n, ns_nmid (nsc_nd n))) (nsc_q x) = [] /\
+  map (fun p => (fst (fst p), snd p)) (nsc_trace nsc_cf_ex (nsc_init (fun _ => true)) nsc_evs_ex) =
+   [(0, [NsAcc; NsTx (ns_mkmsg true 7 101)]); (1, [NsAcc; NsTx (ns_mkmsg true 7 201)]);
+    (0, [NsAcc]); (1, [NsAcc]);
+    (1, [NsTx (ns_mkmsg true 8 202)]);
+    (0, [NsTx (ns_mkmsg true 8 102); NsNack 2 7 true]);
+    (0, [NsRe (ns_mkmsg true 8 102)]); (0, [NsNack 0 8 true]);
+    (1, [NsRe (ns_mkmsg true 8 202)]); (1, [NsNack 2 8 true])].
+Proof. exact nsc_example. Qed.
+Print Assumptions C08_shared_queue_example.
 
 (* Failing socket writes (coap_socket_send returns -1; NstartFail.v: the event NsfErr makes the
    next write fail, wherever it is attempted - coap_send, the flush loop, a retransmission).
